@@ -131,7 +131,43 @@ def gen_inputs(chk, P):
     if not quick:
         ins.append(('incompr_buf', G.rand_bytes(rng, B + 1)))
         ins.append(('ab_big', G.rand_bytes(rng, 30000, b'ab')))
+    # ---- round 3 (own random stream: the inputs above stay what they were)
+    rng = chk.rng('inputs3')
+    # what lies behind buf_bound must not matter.  Single buffer: the never written part of buf holds the
+    # allocator's fill byte ('encf <fill>'): inputs ending in a match whose source is followed by fill
+    # bytes, and all short strings over {fill, 'a'} (kind 'fill<f>:...')
+    for d in G.exhaustive(b'\x00a', 9 if quick else 13):
+        if len(d) >= 9 or not quick:
+            ins.append(('fill0:exh', d))
+    for i in range(60 if quick else 1500):
+        f = rng.choice([0, 255, 0xbe, 0x61])
+        ins.append(('fill%d:tail' % f, G.tail_fill(rng, f, rng.choice([1, 1, 2, 3, 4, 5, 31, 32, 33, 300]))))
+    # multi buffer: a PARTIAL last buffer sees the bytes of the previous full buffer behind buf_bound.
+    # Constant data, periods dividing BUF_LEN, X ++ X[:k], spliced tails; many lengths k of the last
+    # buffer.  A few run through the model as well, the rest ('rt:' = round trip on the implementation
+    # only, the model needs ~8 s per 256 KiB buffer)
+    st = G.stale_tail_inputs(rng, B, 2 if quick else 12)
+    seen = set()
+    for k, d in st:
+        if k not in seen and len(d) < 2 * B:
+            seen.add(k)
+            ins.append(('stale:' + k, d))
+        else:
+            ins.append(('rt:stale:' + k, d))
+    # pool exhaustion followed by repeated re-occurrences (references found through recycled elements)
+    pd = G.pool_dry_inputs(rng, P, 1 if quick else 4)
+    for j, (k, d) in enumerate(pd):
+        ins.append((('' if j == 0 else 'rt:') + 'pool:' + k, d))
+    for i in range(3 if quick else 12):
+        rnd = G.rand_bytes(rng, P['TABLE_SIZE'] + rng.choice([1, 2, 50, 3000]), rng.choice([None, None, bytes(range(64))]))
+        ins.append(('rt:pool:dry+lowtail', rnd + G.pieces_tail(rng, rnd, rng.choice([3, 12, 40]), rng.choice([300, 3000]))))
     return ins
+
+
+def enc_line(kind, d):
+    if kind.startswith('fill'):
+        return 'encf %s %s' % (kind[4:kind.index(':')], hx(d))
+    return 'enc ' + hx(d)
 
 
 def run(chk):
@@ -172,14 +208,20 @@ def run(chk):
     for l in clines:
         if l.startswith('enc '):
             ins.insert(0, ('corpus', unhx(l.split()[1])))
-    el = ['enc ' + hx(d) for _, d in ins]
+    el = [enc_line(k, d) for k, d in ins]
     t0 = time.time()
     ei = run_par(impl, el, ENV)
     chk.log('encoder: %d inputs, impl %.1fs' % (len(el), time.time() - t0))
     t0 = time.time()
-    em = run_par(model, el, costs=[2000 + len(l) * (1 if k in ('rep', 'periodic', '3buf', '2buf_exact') or k.startswith('buf') else 12)
-                                   for l, (k, _) in zip(el, ins)])
-    chk.log('encoder: model %.1fs' % (time.time() - t0))
+    # kinds 'rt:...' are judged by the round trip on the implementation alone (no model run)
+    mi = [i for i, (k, _) in enumerate(ins) if not k.startswith('rt:')]
+    cheap = ('rep', 'periodic', '3buf', '2buf_exact', 'stale:const', 'stale:period|B', 'stale:X+X[:k]', 'stale:splice')
+    mr = run_par(model, [el[i] for i in mi],
+                 costs=[2000 + len(el[i]) * (1 if ins[i][0] in cheap or ins[i][0].startswith('buf') else 12) for i in mi])
+    em = [None] * len(el)
+    for i, y in zip(mi, mr):
+        em[i] = y
+    chk.log('encoder: model %.1fs (%d inputs)' % (time.time() - t0, len(mi)))
     encs = []   # (kind, data, encoding by impl)
     for (kind, d), l, x, y in zip(ins, el, ei, em):
         chk.count(('enc', d), nontrivial=len(d) >= 4); chk.dist('cases', 'enc:' + kind)
@@ -187,7 +229,7 @@ def run(chk):
                  else '<BUF' if len(d) < P['BUF_LEN'] else '>=BUF')
         if x.startswith('CRASH'):
             bad.append(('enc-crash', [l], 'reduce_encode aborts under the sanitizers: ' + x))
-        elif x != y:
+        elif y is not None and x != y:
             tie_broken.append(('enc', [l], 'encoder output differs: impl %s... model %s...' % (x[:80], y[:80])))
         if x.startswith('E '):
             encs.append((kind, d, unhx(x[2:])))
@@ -199,8 +241,11 @@ def run(chk):
     # ---------------- 2. decoder: valid streams, byte mutants, structural mutants, crafted streams
     rng = chk.rng('mut')
     dl = []      # (line, kind, original data or None)
+    encl = {}    # decoder line of a valid stream -> the encoder line that produced it
     for kind, d, e in encs:
-        dl.append(('dec 1 %d %s' % (rng.choice([0, 255, 0xbe]), hx(e)), 'valid', d))
+        # kinds ending in '-rt' run on the implementation only (property-level oracle, no model verdict)
+        dl.append(('dec 1 %d %s' % (rng.choice([0, 255, 0xbe]), hx(e)), 'valid-rt' if kind.startswith('rt:') else 'valid', d))
+        encl[dl[-1][0]] = enc_line(kind, d)
     small = [(k, d, e) for k, d, e in encs if len(e) <= (26 if quick else 40)]
     rng.shuffle(small)
     # always swept exhaustively: the empty input and a few fixed tiny ones (trailer-only streams,
@@ -232,6 +277,11 @@ def run(chk):
             dl.insert(0, (l, 'corpus', None))
     # big streams: truncation / extension / a few substitutions of the multi-buffer encodings
     for k, d, e in encs:
+        if k.startswith('rt:'):
+            if len(e) < 20000:
+                dl.append(('dec 1 0 ' + hx(e[:len(e) - rng.choice([1, 2, 9, 10])]), 'trunc-rt', d))
+                dl.append(('dec 1 0 ' + hx(e + bytes([rng.choice([0, e[-1]])])), 'ext-rt', d))
+            continue
         if len(d) >= P['BUF_LEN'] - 1 and len(e) < 200000:
             cuts = (len(e) - 1, len(e) // 2) if not quick else (rng.choice([len(e) - 1, len(e) - 9, len(e) // 2]),)
             for cut in cuts:
@@ -247,12 +297,26 @@ def run(chk):
     di = run_par(impl, lines, ENV, costs=costs)
     chk.log('decoder: %d streams, impl %.1fs' % (len(lines), time.time() - t0))
     t0 = time.time()
-    dm = run_par(model, lines, costs=costs)
-    chk.log('decoder: model %.1fs' % (time.time() - t0))
+    mi = [i for i, x_ in enumerate(dl) if not x_[1].endswith('-rt')]
+    mr = run_par(model, [lines[i] for i in mi], costs=[costs[i] for i in mi])
+    dm = [None] * len(dl)
+    for i, y in zip(mi, mr):
+        dm[i] = y
+    chk.log('decoder: model %.1fs (%d streams)' % (time.time() - t0, len(mi)))
     nshown = 0
     for (l, kind, d), x, y in zip(dl, di, dm):
         chk.count(l, nontrivial=True); chk.dist('cases', 'dec:' + kind.split(':')[0])
-        chk.dist('dec_verdict_model', y[:1]); chk.dist('dec_verdict_impl', x[:1] if not x.startswith('CRASH') else 'CRASH')
+        chk.dist('dec_verdict_impl', x[:1] if not x.startswith('CRASH') else 'CRASH')
+        if y is None:
+            kind = kind[:-3]
+            if x.startswith('CRASH'):
+                bad.append(('dec-crash', [l], 'reduce_decode aborts under ASan/UBSan (%s stream): %s' % (kind, x)))
+            elif kind == 'valid' and x != 'A ' + hx(d):
+                bad.append(('roundtrip', [encl.get(l, 'enc ' + hx(d)), l], 'decode(encode(data)) != data (%d bytes): got %s' % (len(d), x[:60])))
+            elif kind in ('trunc', 'ext') and x != 'R' and x != 'SKIPPED':
+                bad.append(('trunc-ext', [l], '%s of an encoder output is accepted: %s' % (kind, x[:60])))
+            continue
+        chk.dist('dec_verdict_model', y[:1])
         if kind in ('sub', 'ref_len', 'crafted:overlap') and nshown < 3 and y == 'R':
             chk.sample('%s -> model %s impl %s (%s)' % (l[:100], y, x[:40], kind)); nshown += 1
         if x == 'SKIPPED':
@@ -262,7 +326,7 @@ def run(chk):
             continue
         # property-level oracles on the implementation, independent of the model
         if kind == 'valid' and x != 'A ' + hx(d):
-            bad.append(('roundtrip', ['enc ' + hx(d), l], 'decode(encode(data)) != data (%d bytes): got %s' % (len(d), x[:60])))
+            bad.append(('roundtrip', [encl.get(l, 'enc ' + hx(d)), l], 'decode(encode(data)) != data (%d bytes): got %s' % (len(d), x[:60])))
         elif kind in ('trunc', 'ext') and x != 'R':
             bad.append(('trunc-ext', [l], '%s of an encoder output is accepted: %s' % (kind, x[:60])))
         elif kind in ('sub', 'del', 'noncanon') and d is not None and x.startswith('A') and x != 'A ' + hx(d):
@@ -427,17 +491,18 @@ def shrink_case(impl, model, kind, ls):
     """shrink an encoder input whose round trip / encoding fails (byte-level delta debugging)"""
     if kind != 'roundtrip' or len(ls[0]) > 20000:
         return ls
-    data = list(unhx(ls[0].split()[1]))
+    data = list(unhx(ls[0].split()[-1]))
+    cmd = ' '.join(ls[0].split()[:-1]) + ' '     # 'enc ' or 'encf <fill> '
 
     def fails(sub):
-        e = run_shard(impl, ['enc ' + hx(bytes(sub))], ENV, 600)[0]
+        e = run_shard(impl, [cmd + hx(bytes(sub))], ENV, 600)[0]
         if not e.startswith('E '):
             return True
         d = run_shard(impl, ['dec 1 0 ' + e[2:]], ENV, 600)[0]
         return d != 'A ' + hx(bytes(sub))
     sub = vlib.shrink_list(data, fails, max_steps=200)
-    e = run_shard(impl, ['enc ' + hx(bytes(sub))], ENV, 600)[0]
-    return ['enc ' + hx(bytes(sub)), 'dec 1 0 ' + (e[2:] if e.startswith('E ') else '-')]
+    e = run_shard(impl, [cmd + hx(bytes(sub))], ENV, 600)[0]
+    return [cmd + hx(bytes(sub)), 'dec 1 0 ' + (e[2:] if e.startswith('E ') else '-')]
 
 
 def replay(chk, path):
